@@ -2079,9 +2079,17 @@ class NuclearNorm(Functional):
                     snorm = np.maximum(self.sigma, snorm, out=snorm)
                     sprox = ((1 - eps) - self.sigma / snorm)[..., None] * s
                 elif func.pwisenorm.exponent == np.inf:
-                    snorm = np.sum(np.abs(s), axis=-1)
-                    snorm = np.maximum(self.sigma, snorm, out=snorm)
-                    sprox = ((1 - eps) - self.sigma / snorm)[..., None] * s
+                    # prox of sigma * max(s) is s minus the projection of s
+                    # onto the l1-ball of radius sigma (Moreau); the
+                    # singular values are sorted and nonnegative.
+                    radius = self.sigma - eps
+                    css = np.cumsum(s, axis=-1) - radius
+                    ind = np.arange(1, s.shape[-1] + 1)
+                    rho = np.sum(s - css / ind > 0, axis=-1, keepdims=True)
+                    theta = np.take_along_axis(css, rho - 1, axis=-1) / rho
+                    proj = np.maximum(s - theta, 0)
+                    inside = np.sum(s, axis=-1, keepdims=True) <= radius
+                    sprox = np.where(inside, 0, s - proj)
                 else:
                     raise RuntimeError
 
